@@ -7,7 +7,7 @@
    interleaving of the visible events of every schedule. *)
 From Oras Require Import Base.Prelude Generated.GC01 Model.CopySpec Model.CopyTop Model.CopyOpt
   Model.CopyCancel Model.CopyLinks Proofs.CopySpec Proofs.CopyAcct Proofs.CopyOpt Proofs.CopyCancel
-  Proofs.CopyLinks.
+  Proofs.CopyLinks Proofs.CopyCode.
 Local Open Scope nat_scope.
 
 (* Success => every node reachable from the root (foreign layers cut) is in the
@@ -277,3 +277,45 @@ Theorem C01_closure_over_links :
     forall x, lreach flds (c_root c) x -> has (graph_of n flds dkey) (dst st) x = true.
 Proof. exact closure_links. Qed.
 Print Assumptions C01_closure_over_links.
+
+(* Copy end to end in the model: the root is what the prologue computes (resolve, MapRoot, platform
+   selection = first matching entry); a successful run replicates that root's graph and the
+   effective destination reference resolves to it *)
+Theorem C01_copy_top :
+  forall (g : graph) (opt : Z) (refpusher mount : bool) (cached0 d0 : list node)
+         (tags0 : str -> option node) (srcRef dstRef : str)
+         (resolved : option node) (user_map : option (node -> option node)) (platform : option plat)
+         (entries_of : node -> option (list (node * option plat))) (root : node) tr st,
+    copy_root resolved user_map platform entries_of = Some root ->
+    closed_nodes g d0 -> mt_consistent g ->
+    accepts g (copy_cfg defaultConcurrency opt refpusher mount root cached0) d0 tr = Some st ->
+    returned st = Some true ->
+    tags_after tags0 (eff_ref srcRef dstRef) st (eff_ref srcRef dstRef) = Some root /\
+    (forall n, reach g root n -> has g (dst st) n = true).
+Proof. exact (fun g => copy_top_lemma g defaultConcurrency). Qed.
+Print Assumptions C01_copy_top.
+
+Theorem C01_copy_root_is_platform_selection :
+  forall resolved platform_want entries_of r es root,
+    resolved = Some r -> entries_of r = Some es ->
+    copy_root resolved None (Some platform_want) entries_of = Some root ->
+    select_manifest es platform_want = Some root.
+Proof. exact copy_root_platform. Qed.
+Print Assumptions C01_copy_root_is_platform_selection.
+
+(* the order of effects the model assumes, as facts about the call sequences regenerated from
+   copy.go / syncutil (layer T): in particular syncutil.Go ends with `return context.Cause(ctx)` *)
+Theorem C01_code_order_syncutil_go :
+  calls_syncutilGo =
+  [b "cancel"; b "region.Start"; b "cancel"; b "eg.Go"; b "lr.End"; b "fn"; b "cancel"; b "eg.Wait";
+   b "cancel"; b "context.Cause"] /\
+  go_final_return = ["context.Cause(ctx)"%string].
+Proof. exact order_syncutilGo. Qed.
+Print Assumptions C01_code_order_syncutil_go.
+
+Theorem C01_code_order_copy :
+  calls_Copy = [b "resolveRoot"; b "opts.MapRoot"; b "prepareCopy"; b "copyGraph"] /\
+  calls_copyNode = [b "opts.PreCopy"; b "doCopyNode"; b "opts.PostCopy"] /\
+  calls_doCopyNode = [b "src.Fetch"; b "rc.Close"; b "dst.Push"].
+Proof. exact (conj order_Copy (conj order_copyNode order_doCopyNode)). Qed.
+Print Assumptions C01_code_order_copy.
